@@ -37,32 +37,34 @@ using namespace coloquinte;
 
 struct E2E {
   vh::Out &out;
-  explicit E2E(vh::Out &o) : out(o) {}
+  std::string pfx;  // prefix of the counters: pfx + "" (Circuit::placeDetailed) or "dir_" (passes driven directly)
+  explicit E2E(vh::Out &o, const std::string &prefix = pfx + "") : out(o), pfx(prefix) {}
 
   void run(const std::string &id, const Circuit &input, const vd::Params &prm) {
     run(id, input, prm, vd::runCase(input, prm));
   }
 
   // `r` = what vd::runCase(input, prm) returned (possibly computed by a worker process)
-  void run(const std::string &id, const Circuit &input, const vd::Params &prm, const vd::Run &r) {
+  void run(const std::string &id, const Circuit &input, const vd::Params &prm, const vd::Run &r,
+           const std::string &inputPrefix = "") {
     out.evaluations++;
-    std::string inp = vd::caseString(input, prm);
-    out.count("e2e_legalize_" + r.legalizeStatus);
-    out.count(prm.nonDefault ? "e2e_params_nondefault" : "e2e_params_effort");
-    if (prm.p.detailed.reorderingMaxNbCells >= 2) out.count("e2e_reordering_on");
+    std::string inp = inputPrefix + vd::caseString(input, prm);
+    out.count(pfx + "legalize_" + r.legalizeStatus);
+    out.count(prm.nonDefault ? pfx + "params_nondefault" : pfx + "params_effort");
+    if (prm.p.detailed.reorderingMaxNbCells >= 2) out.count(pfx + "reordering_on");
     if (r.legalizeStatus != "ok") {
       // legalization alone refuses (or crashes: C01/C07's business): nothing is demanded of placeDetailed
-      out.count("e2e_detailed_after_failed_legalize_" + r.detailedStatus);
+      out.count(pfx + "detailed_after_failed_legalize_" + r.detailedStatus);
       return;
     }
     Circuit legal = vd::withSnap(input, r.legalized);
     std::string why = vc::checkLegal(legal, false);
     if (!why.empty()) {
       // legalization returned an illegal placement (C01 finding): detailed placement starts from garbage
-      out.count("e2e_skipped_legalization_result_illegal");
+      out.count(pfx + "skipped_legalization_result_illegal");
       return;
     }
-    out.count("e2e_detailed_" + r.detailedStatus);
+    out.count(pfx + "detailed_" + r.detailedStatus);
     if (r.detailedStatus != "ok") {
       out.fail(id, "placeDetailed fails (" + r.detailedStatus + ": " + r.detailedWhat +
                        ") on a circuit that legalize alone accepts", inp);
@@ -74,7 +76,7 @@ struct E2E {
     }
     int H = input.rowHeight();
     const vd::Snap &first = r.callbacks[0];
-    if (!(first == r.legalized)) out.count("e2e_first_callback_differs_from_legalize_alone");
+    if (!(first == r.legalized)) out.count(pfx + "first_callback_differs_from_legalize_alone");
     // every exposed state is legal
     std::vector<const vd::Snap *> states;
     for (auto &s : r.callbacks) states.push_back(&s);
@@ -107,14 +109,14 @@ struct E2E {
         }
       }
     }
-    out.count("e2e_callbacks", r.callbacks.size());
+    out.count(pfx + "callbacks", r.callbacks.size());
     if (moved) {
       out.nontrivial(vh::hashStr(inp));
-      out.count("e2e_placement_changed");
+      out.count(pfx + "placement_changed");
     }
     // ---- (c) history replay on the model
     if (r.hasHook) {
-      out.count("e2e_replayed_histories");
+      out.count(pfx + "replayed_histories");
       Circuit start = vd::withSnap(input, first);
       out.ops << "case " << id << "\n";
       out.impl << "case " << id << "\n";
@@ -133,8 +135,8 @@ struct E2E {
           // the model replays the move (silent when accepted) and evaluates the decidable Inv on the new state
           out.ops << l << "\ninv\n";
           out.impl << "inv true\n";
-          out.count("e2e_logged_" + l.substr(0, l.find(' ')));
-          out.count("e2e_inv_evaluated");
+          out.count(pfx + "logged_" + l.substr(0, l.find(' ')));
+          out.count(pfx + "inv_evaluated");
         }
       }
       out.ops << "export\n";
@@ -144,6 +146,151 @@ struct E2E {
                " callbacks=" + std::to_string(r.callbacks.size()));
   }
 };
+
+// ------------------------------------------------------------------------------------------------
+// (d) the optimiser's passes driven directly
+// ------------------------------------------------------------------------------------------------
+//
+// "d<k>": Circuit::legalize, then a DetailedPlacer on the legalized circuit and a random sequence of its
+// public passes with arbitrary window arguments — runSwaps / runInserts (never called by run()) / runShifts /
+// runReordering and the per-row variants runSwapsOneRow, runInsertsOneRow, runSwapsTwoRows(Amplify),
+// runInsertsTwoRows, runShiftsOnRows.  After every pass: DetailedPlacer::check(), and the placement it would
+// export is recorded.  The result has the shape of a placeDetailed run (vd::Run: one "callback" per pass), so
+// the same oracle (legality of every exposed placement, unoptimised cells unmoved, no exception) and the same
+// history replay on the model (hook H3: every logged move replayed, Inv evaluated, export compared after every
+// pass) apply.
+
+struct Pass { int kind, a, b, c; };
+
+static std::string passesString(const std::vector<Pass> &ps) {
+  std::ostringstream os;
+  os << "c02d";
+  for (auto &p : ps) os << " " << p.kind << " " << p.a << " " << p.b << " " << p.c;
+  os << "\n";
+  return os.str();
+}
+
+static bool parsePasses(const std::string &text, std::vector<Pass> &ps) {
+  if (text.rfind("c02d", 0) != 0) return false;
+  std::istringstream is(text.substr(4, text.find('\n') - 4));
+  Pass p;
+  while (is >> p.kind >> p.a >> p.b >> p.c) ps.push_back(p);
+  return true;
+}
+
+static const char *passName(int kind) {
+  static const char *names[] = {"runSwaps", "runInserts", "runShifts", "runReordering", "runSwapsOneRow",
+                                "runInsertsOneRow", "runSwapsTwoRows", "runInsertsTwoRows", "runSwapsTwoRowsAmplify",
+                                "runShiftsOnRows"};
+  return names[kind % 10];
+}
+
+static std::vector<Pass> genPasses(vh::Rng &g) {
+  std::vector<Pass> ps;
+  int n = g.range(2, 6);
+  for (int i = 0; i < n; ++i) {
+    Pass p;
+    // the global passes half of the time, inserts favoured (placeDetailed never runs them)
+    int t = g.range(0, 99);
+    p.kind = t < 14 ? 0 : t < 40 ? 1 : t < 52 ? 2 : t < 62 ? 3 : 4 + (int)g.range(0, 5);
+    p.a = g.range(0, 1000);
+    p.b = g.range(0, 1000);
+    p.c = g.range(0, 1000);
+    ps.push_back(p);
+  }
+  return ps;
+}
+
+static vd::Run directPasses(const Circuit &input, const vd::Params &prm, const std::vector<Pass> &passes,
+                            int timeoutSec = 120) {
+  vd::Run r;
+  std::string txt, diag;
+  std::string st = vh::isolated(
+      [&](std::ostream &os) {
+        vd::silenceStdout();
+        Circuit c = input;
+        try {
+          c.legalize(prm.p);
+        } catch (const std::exception &e) {
+          os << "legalize " << vc::exClass(e) << "\n";
+          return;
+        }
+        os << "legalize ok\n";
+        os << "legalized " << vd::snapLine(vd::snapshot(c)) << "\n";
+        std::vector<std::string> log;
+#ifdef COLOQUINTE_VERIF_DETAILED_OPLOG
+        vd::oplogSink() = &log;
+        coloquinte::verif::onDetailedOp = &vd::oplogHook;
+        os << "hook\n";
+#endif
+        std::vector<vd::Snap> snaps;
+        std::string status = "ok", what;
+        try {
+          prm.p.check();
+          DetailedPlacer pl(c, prm.p);
+          int R = DetailedPlacement::fromIspdCircuit(c).nbRows();
+          auto expose = [&]() {
+            pl.check();
+            Circuit ex = c;
+            pl.exportPlacement(ex);
+            snaps.push_back(vd::snapshot(ex));
+            log.push_back("cb");
+          };
+          expose();
+          for (const Pass &p : passes) {
+            int kind = p.kind % 10;
+            if (R == 0 && kind >= 4) kind = 0;
+            int r1 = R ? p.a % R : 0, r2 = R ? p.b % R : 0;
+            if (R >= 2 && r1 == r2) r2 = (r1 + 1) % R;
+            switch (kind) {
+              case 0: pl.runSwaps(p.a % 4, p.b % 7); break;
+              case 1: pl.runInserts(p.a % 4, p.b % 7); break;
+              case 2: pl.runShifts(1 + p.a % 5, 2 + p.b % 19); break;
+              case 3: pl.runReordering(1 + p.a % 3, 2 + p.b % 3); break;
+              case 4: pl.runSwapsOneRow(r1, p.c % 7); break;
+              case 5: pl.runInsertsOneRow(r1, p.c % 7); break;
+              case 6: if (R >= 2) pl.runSwapsTwoRows(r1, r2, p.c % 7); break;
+              case 7: if (R >= 2) pl.runInsertsTwoRows(r1, r2, p.c % 7); break;
+              case 8: if (R >= 2) pl.runSwapsTwoRowsAmplify(r1, r2, p.c % 7); break;
+              default: {
+                std::vector<int> rows = {r1};
+                if (R >= 2) rows.push_back(r2);
+                pl.runShiftsOnRows(rows, 2 + p.c % 19);
+              }
+            }
+            expose();
+          }
+        } catch (const std::exception &e) {
+          status = vc::exClass(e);
+          what = e.what();
+        }
+        os << "status " << status << "\n";
+        os << "what " << what << "\n";
+        for (auto &s : snaps) os << "cb " << vd::snapLine(s) << "\n";
+        for (auto &l : log) os << "log " << l << "\n";
+      },
+      txt, timeoutSec, &diag);
+  r.legalizeStatus = "unknown";
+  r.detailedStatus = st;
+  if (st != "ok") {
+    // the child died: legalization alone is C01's business, everything after it is ours — tell them apart
+    r.detailedWhat = diag.size() > 600 ? diag.substr(diag.size() - 600) : diag;
+  }
+  std::istringstream is(txt);
+  std::string line;
+  while (std::getline(is, line)) {
+    if (line == "hook") r.hasHook = true;
+    else if (line.rfind("legalize ", 0) == 0) r.legalizeStatus = line.substr(9);
+    else if (line.rfind("legalized ", 0) == 0) vd::parseSnap(line.substr(10), r.legalized);
+    else if (line.rfind("status ", 0) == 0) r.detailedStatus = line.substr(7);
+    else if (line.rfind("what ", 0) == 0) r.detailedWhat = line.substr(5);
+    else if (line.rfind("cb ", 0) == 0) { vd::Snap s; vd::parseSnap(line.substr(3), s); r.callbacks.push_back(s); }
+    else if (line.rfind("log ", 0) == 0) r.oplog.push_back(line.substr(4));
+  }
+  if (st != "ok" && r.legalizeStatus == "unknown") r.legalizeStatus = st;  // died inside legalize (vh::isolated buffers)
+  if (!r.callbacks.empty()) r.final = r.callbacks.back();
+  return r;
+}
 
 // ------------------------------------------------------------------------------------------------
 // (a) primitives
@@ -492,7 +639,8 @@ int main(int argc, char **argv) {
         "placements of the labelled movable cells of every instance, each dumped, built by the real fromIspdCircuit (must "
         "accept) and by the model (init/inv/state/check/export compared).  From every root a depth-first search to 4 moves "
         "through the real public API: at every node canSwap for EVERY ordered pair of cell indices (a==b and ignored cells "
-        "included) and canInsert for EVERY (cell, row, pred in {-1}+cells of that row), real answer vs model; every "
+        "included) and canInsert for EVERY (cell, row, pred in {-1}+cells of that row), real answers vs model (two lines "
+        "per node, one character per query); every "
         "feasible move also gets posSwap/posInsert, is executed on a copy of the object (model: mark/reset/drop), the state "
         "line is compared and the direct oracle runs on the real object (check() passes, every optimised cell placed, row "
         "lists consistent with pred/row/last, cells of a row in increasing x without overlap inside the row at the row's y, "
